@@ -236,9 +236,13 @@ func execFmtCase(c *Sx, env *execEnv) (*Sx, []Violation) {
 			l1 := libList(dir, f, focus, exposure, stop)
 			l2 := l1
 			// repeated runs: Go picks the second order of a two-entry map only about one time in eight
-			for k, reps := 0, map[bool]int{false: 2, true: 6}[exposure]; k < reps; k++ {
+			reps := map[bool]int{false: 2, true: 6}[exposure]
+			if l1.err != nil {
+				reps = 24 // a failing run is cheap, and which policy the error names is decided by one map iteration
+			}
+			for k := 0; k < reps; k++ {
 				l2 = libList(dir, f, focus, exposure, stop)
-				if (l1.err == nil) != (l2.err == nil) || l1.out != l2.out {
+				if (l1.err == nil) != (l2.err == nil) || l1.out != l2.out || (l1.err != nil && l1.err.Error() != l2.err.Error()) {
 					break
 				}
 			}
@@ -246,7 +250,10 @@ func execFmtCase(c *Sx, env *execEnv) (*Sx, []Violation) {
 			if modelsExposure || !exposure {
 				emit("out", f, l1.out, l1.err)
 			}
-			// C08: repeated runs are byte-identical
+			// C08: repeated runs are byte-identical (also the error they return)
+			if l1.err != nil && l2.err != nil && l1.err.Error() != l2.err.Error() {
+				rep("C08", "nondeterministic-error", fmt.Sprintf("format %s exposure=%v: two runs on the same directory fail with different errors: %q / %q", f, exposure, l1.err.Error(), l2.err.Error()))
+			}
 			if (l1.err == nil) != (l2.err == nil) || l1.out != l2.out {
 				rep("C08", "nondeterministic-output", fmt.Sprintf("format %s exposure=%v: two runs on the same directory differ", f, exposure))
 			}
@@ -505,7 +512,7 @@ func checkDiffFormat(format, out string, cd diff.ConnectivityDiff) string {
 }
 
 func genFmtCase(r *Rng, id int, tier string) *Sx {
-	cfg := &genCfg{anp: r.P(30), banp: true, pods: true, ingress: r.P(35), icNs: true, icName: r.P(25), twinPct: 25, complementPct: 8, podPortsVary: true, namedOnIPPct: 0, maxNP: 4, maxWl: 5}
+	cfg := &genCfg{anp: r.P(30), banp: true, pods: true, ingress: r.P(35), icNs: true, icName: r.P(25), twinPct: 25, complementPct: 8, podPortsVary: true, namedOnIPPct: 10, maxNP: 4, maxWl: 5}
 	exposure := r.P(40)
 	if exposure {
 		cfg.anp, cfg.banp = false, false
